@@ -40,7 +40,7 @@ type ResT struct {
 	Units []string
 }
 
-// Op kinds: 'P' Parse, 'U' ParseWithUnit, 'R' Residue, 'J' Project on Proj, 'V' ProjectValues on
+// Op kinds: 'Q' query (every observable of every projection in its present state), 'P' Parse, 'U' ParseWithUnit, 'R' Residue, 'J' Project on Proj, 'V' ProjectValues on
 // Proj, 'A' project on every projection parsed so far (ProjectValues where there is a .unit field).
 type Op struct {
 	Kind  byte
@@ -50,7 +50,7 @@ type Op struct {
 }
 
 type Scenario struct {
-	Ops  []Op
+	Ops    []Op
 	Stream bool // the 'A' results are fed as benchmark-format text through a real benchfmt.Reader and
 	// projected as they are scanned, WITHOUT Clone (the Reader reuses one Result and overwrites
 	// config values in place); the case line carries the results the Reader actually delivered
@@ -115,6 +115,8 @@ func encOp(o Op) string {
 		return string(o.Kind) + ":" + strings.Join(parts, "+")
 	case 'R':
 		return "R"
+	case 'Q':
+		return "Q"
 	case 'J', 'V':
 		return string(o.Kind) + ":" + strconv.Itoa(o.Proj) + ":" + encRes(o.Res)
 	case 'A':
@@ -186,6 +188,8 @@ func decScenario(line string) Scenario {
 			sc.Ops = append(sc.Ops, op)
 		case 'R':
 			sc.Ops = append(sc.Ops, Op{Kind: 'R'})
+		case 'Q':
+			sc.Ops = append(sc.Ops, Op{Kind: 'Q'})
 		case 'J', 'V':
 			q := strings.SplitN(o, ":", 3)
 			n, _ := strconv.Atoi(q[1])
@@ -287,6 +291,8 @@ type pstate struct {
 	distinct []benchproc.Key
 	grew     bool
 	nflat0   int
+	lastVals []benchproc.Key // the slice the previous ProjectValues call returned (not copied)
+	lastCopy []benchproc.Key // its contents at that time
 }
 
 func (ps *pstate) add(k benchproc.Key) int {
@@ -442,6 +448,12 @@ func runScenario(id int, sc Scenario, r *hx.Rand) {
 		var perr []string
 		// all[i] = for the i-th 'A' operation, the key index per projection (lossless oracle)
 		var all [][]int
+		aliased := ""
+		defer func() {
+			if aliased != "" && crash == "" {
+				crash = aliased
+			}
+		}()
 		var live *benchfmt.Result // stream mode: the Reader's own Result, not a copy
 		project := func(ps *pstate, op byte, res ResT) []int {
 			rr := live
@@ -458,12 +470,189 @@ func runScenario(id int, sc Scenario, r *hx.Rand) {
 			for _, k := range ks {
 				out = append(out, ps.add(k))
 			}
+			if op == 'V' {
+				// The slice ProjectValues returned LAST time is still the caller's: the library must
+				// not have overwritten it, and the caller clobbering it now must not affect anything.
+				for i := range ps.lastVals {
+					if ps.lastVals[i] != ps.lastCopy[i] {
+						aliased = "ProjectValues: a slice returned earlier was overwritten by a later call"
+					}
+					ps.lastVals[i] = benchproc.Key{}
+				}
+				ps.lastVals = ks
+				ps.lastCopy = append([]benchproc.Key(nil), ks...)
+			}
 			if n := len(ps.p.FlattenedFields()); len(ps.stream) > len(ks) && n > ps.nflat0 {
 				ps.grew = true
 			} else if len(ps.stream) == len(ks) {
 				ps.nflat0 = n
 			}
 			return out
+		}
+		// render prints every observable of every projection in its PRESENT state (tag "" at the end,
+		// "q=<op index> " for a query in the middle of the stream): FlattenedFields, Key.Get/String,
+		// Key.Less, SortKeys on all arrangements of the keys made so far, NonSingularFields.
+		render := func(tag string) {
+			pe := "-"
+			if len(perr) > 0 {
+				pe = strings.Join(perr, ".")
+			}
+			lines = append(lines, fmt.Sprintf("obs %d %sparse=%s np=%d", id, tag, pe, len(projs)))
+			for pi, ps := range projs {
+				flat := ps.p.FlattenedFields()
+				fidx := map[*benchproc.Field]int{}
+				for i, f := range flat {
+					fidx[f] = i
+				}
+				n := len(ps.distinct)
+				if ps.grew {
+					tags["grow"] = true
+				}
+				var ids []int
+				for _, k := range ps.stream {
+					ids = append(ids, ps.idx[k])
+				}
+				get, str, strv := "-", "-", "-"
+				if n > 0 {
+					gs := make([]string, n)
+					ss := make([]string, n)
+					sv := make([]string, n)
+					for i, k := range ps.distinct {
+						vs := make([]string, len(flat))
+						for j, f := range flat {
+							v := k.Get(f)
+							values[v] = true
+							vs[j] = hx.HexS(v)
+						}
+						gs[i] = strings.Join(vs, ".")
+						ss[i] = hx.HexS(k.String())
+						sv[i] = hx.HexS(k.StringValues())
+					}
+					get = strings.Join(gs, ",")
+					str = strings.Join(ss, ",")
+					strv = strings.Join(sv, ",")
+				}
+				less := "-"
+				if n > 0 {
+					rows := make([]string, n)
+					for i, a := range ps.distinct {
+						b := make([]byte, n)
+						for j, o := range ps.distinct {
+							if a.Less(o) {
+								b[j] = '1'
+							} else {
+								b[j] = '0'
+							}
+						}
+						rows[i] = string(b)
+					}
+					less = strings.Join(rows, ".")
+				}
+				// SortKeys on shuffles: the set of distinct outcomes.
+				outcomes := map[string]bool{}
+				sortOne := func(perm []int) {
+					ks := make([]benchproc.Key, len(perm))
+					for i, x := range perm {
+						ks[i] = ps.distinct[x]
+					}
+					benchproc.SortKeys(ks)
+					o := make([]int, len(ks))
+					for i, k := range ks {
+						o[i] = ps.idx[k]
+					}
+					outcomes[ints(o)] = true
+				}
+				if n > 0 && n <= 6 {
+					permutations(n, sortOne)
+				} else if n > 6 {
+					perm := make([]int, n)
+					for i := range perm {
+						perm[i] = i
+					}
+					sortOne(perm)
+					for i, j := 0, n-1; i < j; i, j = i+1, j-1 {
+						perm[i], perm[j] = perm[j], perm[i]
+					}
+					sortOne(perm)
+					for s := 0; s < 40; s++ {
+						for i := n - 1; i > 0; i-- {
+							j := r.Intn(i + 1)
+							perm[i], perm[j] = perm[j], perm[i]
+						}
+						sortOne(perm)
+					}
+				}
+				var ol []string
+				for o := range outcomes {
+					ol = append(ol, o)
+				}
+				sort.Strings(ol)
+				sorts := "-"
+				if len(ol) > 0 {
+					sorts = strings.Join(ol, "/")
+				}
+				// NonSingularFields: all keys, all keys reversed, every pair.
+				nsOf := func(ks []benchproc.Key) string {
+					fs := benchproc.NonSingularFields(ks)
+					b := make([]byte, len(flat))
+					for i := range b {
+						b[i] = '0'
+					}
+					for i, f := range fs {
+						b[fidx[f]] = '1'
+						fs[i] = nil // the returned slice is the caller's: clobbering it must not affect later calls
+					}
+					if len(b) == 0 {
+						return "e"
+					}
+					return string(b)
+				}
+				ns := nsOf(ps.distinct)
+				rev := make([]benchproc.Key, n)
+				for i, k := range ps.distinct {
+					rev[n-1-i] = k
+				}
+				nsr := nsOf(rev)
+				var pairs []string
+				for a := 0; a < n && a < 7; a++ {
+					for b := a + 1; b < n && b < 7; b++ {
+						pairs = append(pairs, nsOf([]benchproc.Key{ps.distinct[a], ps.distinct[b]}))
+					}
+				}
+				nsp := "-"
+				if len(pairs) > 0 {
+					nsp = strings.Join(pairs, ".")
+				}
+				// equalRow between the stored rows of the first keys (the bucket-scan comparison)
+				eq := "-"
+				if n > 0 {
+					m := n
+					if m > 6 {
+						m = 6
+					}
+					rows := make([]string, m)
+					for a := 0; a < m; a++ {
+						b := make([]byte, m)
+						for c := 0; c < m; c++ {
+							b[c] = '0'
+							if benchproc.VerifEqualRow(benchproc.VerifKeyVals(ps.distinct[a]), benchproc.VerifKeyVals(ps.distinct[c])) {
+								b[c] = '1'
+							}
+						}
+						rows[a] = string(b)
+					}
+					eq = strings.Join(rows, ".")
+				}
+				lines = append(lines, fmt.Sprintf("obs %d %sp=%d fields=%s flat=%s n=%d ids=%s get=%s str=%s less=%s sorts=%s ns=%s nsr=%s nsp=%s eq=%s strv=%s",
+					id, tag, pi, names(ps.p.Fields()), names(flat), n, ints(ids), get, str, less, sorts, ns, nsr, nsp, eq, strv))
+				if sc.S {
+					lines = append(lines, fmt.Sprintf("sobs %d %sp=%d flat=%s n=%d ids=%s get=%s less=%s sorts=%s nsp=%s str=%s strv=%s",
+						id, tag, pi, names(flat), n, ints(ids), get, less, sorts, nsp, str, strv))
+				}
+				// Judged in EVERY scenario (also those outside the specification's precondition):
+				// Key.Less must be a strict total order on the distinct keys (C09.less_strict_total).
+				stoLines = append(stoLines, fmt.Sprintf("sobs %d %sp=%d sto=%s", id, tag, pi, less))
+			}
 		}
 		var reader *benchfmt.Reader
 		if sc.Stream {
@@ -515,6 +704,8 @@ func runScenario(id int, sc Scenario, r *hx.Rand) {
 						values[f] = true
 					}
 				}
+			case 'Q':
+				render(fmt.Sprintf("q=%d ", oi))
 			case 'R':
 				projs = append(projs, &pstate{p: pp.Residue(), idx: map[benchproc.Key]int{}})
 			case 'J', 'V':
@@ -540,165 +731,7 @@ func runScenario(id int, sc Scenario, r *hx.Rand) {
 				}
 			}
 		}
-		pe := "-"
-		if len(perr) > 0 {
-			pe = strings.Join(perr, ".")
-		}
-		lines = append(lines, fmt.Sprintf("obs %d parse=%s np=%d", id, pe, len(projs)))
-		for pi, ps := range projs {
-			flat := ps.p.FlattenedFields()
-			fidx := map[*benchproc.Field]int{}
-			for i, f := range flat {
-				fidx[f] = i
-			}
-			n := len(ps.distinct)
-			if ps.grew {
-				tags["grow"] = true
-			}
-			var ids []int
-			for _, k := range ps.stream {
-				ids = append(ids, ps.idx[k])
-			}
-			get, str, strv := "-", "-", "-"
-			if n > 0 {
-				gs := make([]string, n)
-				ss := make([]string, n)
-				sv := make([]string, n)
-				for i, k := range ps.distinct {
-					vs := make([]string, len(flat))
-					for j, f := range flat {
-						v := k.Get(f)
-						values[v] = true
-						vs[j] = hx.HexS(v)
-					}
-					gs[i] = strings.Join(vs, ".")
-					ss[i] = hx.HexS(k.String())
-					sv[i] = hx.HexS(k.StringValues())
-				}
-				get = strings.Join(gs, ",")
-				str = strings.Join(ss, ",")
-				strv = strings.Join(sv, ",")
-			}
-			less := "-"
-			if n > 0 {
-				rows := make([]string, n)
-				for i, a := range ps.distinct {
-					b := make([]byte, n)
-					for j, o := range ps.distinct {
-						if a.Less(o) {
-							b[j] = '1'
-						} else {
-							b[j] = '0'
-						}
-					}
-					rows[i] = string(b)
-				}
-				less = strings.Join(rows, ".")
-			}
-			// SortKeys on shuffles: the set of distinct outcomes.
-			outcomes := map[string]bool{}
-			sortOne := func(perm []int) {
-				ks := make([]benchproc.Key, len(perm))
-				for i, x := range perm {
-					ks[i] = ps.distinct[x]
-				}
-				benchproc.SortKeys(ks)
-				o := make([]int, len(ks))
-				for i, k := range ks {
-					o[i] = ps.idx[k]
-				}
-				outcomes[ints(o)] = true
-			}
-			if n > 0 && n <= 6 {
-				permutations(n, sortOne)
-			} else if n > 6 {
-				perm := make([]int, n)
-				for i := range perm {
-					perm[i] = i
-				}
-				sortOne(perm)
-				for i, j := 0, n-1; i < j; i, j = i+1, j-1 {
-					perm[i], perm[j] = perm[j], perm[i]
-				}
-				sortOne(perm)
-				for s := 0; s < 40; s++ {
-					for i := n - 1; i > 0; i-- {
-						j := r.Intn(i + 1)
-						perm[i], perm[j] = perm[j], perm[i]
-					}
-					sortOne(perm)
-				}
-			}
-			var ol []string
-			for o := range outcomes {
-				ol = append(ol, o)
-			}
-			sort.Strings(ol)
-			sorts := "-"
-			if len(ol) > 0 {
-				sorts = strings.Join(ol, "/")
-			}
-			// NonSingularFields: all keys, all keys reversed, every pair.
-			nsOf := func(ks []benchproc.Key) string {
-				fs := benchproc.NonSingularFields(ks)
-				b := make([]byte, len(flat))
-				for i := range b {
-					b[i] = '0'
-				}
-				for _, f := range fs {
-					b[fidx[f]] = '1'
-				}
-				if len(b) == 0 {
-					return "e"
-				}
-				return string(b)
-			}
-			ns := nsOf(ps.distinct)
-			rev := make([]benchproc.Key, n)
-			for i, k := range ps.distinct {
-				rev[n-1-i] = k
-			}
-			nsr := nsOf(rev)
-			var pairs []string
-			for a := 0; a < n && a < 7; a++ {
-				for b := a + 1; b < n && b < 7; b++ {
-					pairs = append(pairs, nsOf([]benchproc.Key{ps.distinct[a], ps.distinct[b]}))
-				}
-			}
-			nsp := "-"
-			if len(pairs) > 0 {
-				nsp = strings.Join(pairs, ".")
-			}
-			// equalRow between the stored rows of the first keys (the bucket-scan comparison)
-			eq := "-"
-			if n > 0 {
-				m := n
-				if m > 6 {
-					m = 6
-				}
-				rows := make([]string, m)
-				for a := 0; a < m; a++ {
-					b := make([]byte, m)
-					for c := 0; c < m; c++ {
-						b[c] = '0'
-						if benchproc.VerifEqualRow(benchproc.VerifKeyVals(ps.distinct[a]), benchproc.VerifKeyVals(ps.distinct[c])) {
-							b[c] = '1'
-						}
-					}
-					rows[a] = string(b)
-				}
-				eq = strings.Join(rows, ".")
-			}
-			lines = append(lines, fmt.Sprintf("obs %d p=%d fields=%s flat=%s n=%d ids=%s get=%s str=%s less=%s sorts=%s ns=%s nsr=%s nsp=%s eq=%s strv=%s",
-				id, pi, names(ps.p.Fields()), names(flat), n, ints(ids), get, str, less, sorts, ns, nsr, nsp, eq, strv))
-			if sc.S {
-				lines = append(lines, fmt.Sprintf("sobs %d p=%d flat=%s n=%d ids=%s get=%s less=%s sorts=%s nsp=%s str=%s strv=%s",
-					id, pi, names(flat), n, ints(ids), get, less, sorts, nsp, str, strv))
-			}
-			// Judged in EVERY scenario (also those outside the specification's precondition):
-			// Key.Less must be a strict total order on the distinct keys (C09.less_strict_total).
-			stoLines = append(stoLines, fmt.Sprintf("sobs %d p=%d sto=%s", id, pi, less))
-		}
+		render("")
 		hasResidue := false
 		for _, op := range sc.Ops {
 			hasResidue = hasResidue || op.Kind == 'R'
@@ -767,14 +800,12 @@ func runScenario(id int, sc Scenario, r *hx.Rand) {
 	}
 	// the reported parseNum results again as observables: the driver answers with what the
 	// specification of "num" demands for each value
-	for i, l := range lines {
+	hx.Printf("obs %d pn=%s\n", id, pnS)
+	if sc.S {
+		hx.Printf("sobs %d pn=%s\n", id, pnS)
+	}
+	for _, l := range lines {
 		hx.Printf("%s\n", l)
-		if i == 0 {
-			hx.Printf("obs %d pn=%s\n", id, pnS)
-			if sc.S {
-				hx.Printf("sobs %d pn=%s\n", id, pnS)
-			}
-		}
 	}
 	for _, l := range stoLines {
 		hx.Printf("%s\n", l)
